@@ -19,9 +19,12 @@ import (
 	"bwverif/rt"
 
 	"github.com/anishathalye/porcupine"
+	"github.com/google/badwolf/bql/planner/filter"
 	"github.com/google/badwolf/storage"
 	"github.com/google/badwolf/storage/memory"
 	"github.com/google/badwolf/triple"
+	"github.com/google/badwolf/triple/node"
+	"github.com/google/badwolf/triple/predicate"
 )
 
 type c07Op struct {
@@ -219,23 +222,112 @@ func c07OptionsProbe(r *rt.Rec, rng *rand.Rand) {
 		ts = append(ts, gen.MustTriple(gen.VNodes[i%3], gen.MustTemp("p", gen.Times[i%3]), triple.NewNodeObject(gen.VNodes[(i/3)%6])))
 	}
 	g.AddTriples(ctx, ts)
-	shared := &storage.LookupOptions{LatestAnchor: true}
-	seenSet := false
-	for k := 0; k < 20 && !seenSet; k++ {
-		ch := make(chan *triple.Triple)
-		done := make(chan error, 1)
-		go func() { done <- g.TriplesForSubject(ctx, gen.VNodes[k%3], shared, ch) }()
-		for range ch {
-			if shared.FilterOptions != nil {
-				seenSet = true
-			}
+	t0 := ts[0]
+	// every lookup method, with arguments that yield at least one element
+	for _, m := range ref.Methods {
+		q := ref.Query{Method: m}
+		us, up, uo := ref.Uses(m)
+		if us {
+			q.S = t0.Subject()
 		}
-		<-done
+		if up {
+			q.P = t0.Predicate()
+		}
+		if uo {
+			q.O = t0.Object()
+		}
+		for _, mk := range []func() *storage.LookupOptions{
+			func() *storage.LookupOptions { return &storage.LookupOptions{LatestAnchor: true} },
+			func() *storage.LookupOptions {
+				return &storage.LookupOptions{FilterOptions: &filter.StorageOptions{Operation: filter.IsTemporal, Field: filter.PredicateField}, MaxElements: 5}
+			},
+			func() *storage.LookupOptions { t := gen.T1; return &storage.LookupOptions{LowerAnchor: &t} },
+		} {
+			shared := mk()
+			snap := ref.CopyOptions(shared)
+			changed := ""
+			n := 0
+			err := streamWith(ctx, g, q, shared, func() {
+				n++
+				// the send happens-before this receive: a write the lookup made
+				// before sending is visible here
+				if changed == "" && !reflect.DeepEqual(shared, snap) {
+					changed = ref.OptionsString(shared)
+				}
+			})
+			r.Eval(1)
+			if err != nil {
+				r.Violation("options-probe-error/"+m, err.Error(), nil)
+			}
+			if n == 0 {
+				r.Inconclusive("options probe delivered no element for " + q.String())
+			}
+			if changed != "" {
+				r.Violation("options-modified-during-lookup/"+m, "the lookup changed the caller's LookupOptions value while streaming results: "+ref.OptionsString(snap)+" became "+changed,
+					map[string]string{"lookup": q.String()})
+			}
+			if !reflect.DeepEqual(shared, snap) {
+				r.Violation("options-modified-after-return/"+m, "the caller's LookupOptions value differs from its snapshot after the lookup returned", map[string]string{"lookup": q.String()})
+			}
+			r.NontrivialDistinct(1)
+		}
 	}
-	r.Eval(20)
-	if seenSet {
-		r.Violation("options-modified-during-lookup/LatestAnchor", "a lookup with LatestAnchor wrote the FilterOptions field of the caller's LookupOptions value while streaming results", map[string]string{"method": "TriplesForSubject", "options": "LatestAnchor=true"})
+}
+
+// streamWith runs the lookup and calls onElem after every received element.
+func streamWith(ctx context.Context, g storage.Graph, q ref.Query, lo *storage.LookupOptions, onElem func()) error {
+	done := make(chan error, 1)
+	switch q.Method {
+	case "Objects":
+		ch := make(chan *triple.Object)
+		go func() { done <- g.Objects(ctx, q.S, q.P, lo, ch) }()
+		for range ch {
+			onElem()
+		}
+	case "Subjects":
+		ch := make(chan *node.Node)
+		go func() { done <- g.Subjects(ctx, q.P, q.O, lo, ch) }()
+		for range ch {
+			onElem()
+		}
+	case "PredicatesForSubject", "PredicatesForObject", "PredicatesForSubjectAndObject":
+		ch := make(chan *predicate.Predicate)
+		go func() {
+			switch q.Method {
+			case "PredicatesForSubject":
+				done <- g.PredicatesForSubject(ctx, q.S, lo, ch)
+			case "PredicatesForObject":
+				done <- g.PredicatesForObject(ctx, q.O, lo, ch)
+			default:
+				done <- g.PredicatesForSubjectAndObject(ctx, q.S, q.O, lo, ch)
+			}
+		}()
+		for range ch {
+			onElem()
+		}
+	default:
+		ch := make(chan *triple.Triple)
+		go func() {
+			switch q.Method {
+			case "TriplesForSubject":
+				done <- g.TriplesForSubject(ctx, q.S, lo, ch)
+			case "TriplesForPredicate":
+				done <- g.TriplesForPredicate(ctx, q.P, lo, ch)
+			case "TriplesForObject":
+				done <- g.TriplesForObject(ctx, q.O, lo, ch)
+			case "TriplesForSubjectAndPredicate":
+				done <- g.TriplesForSubjectAndPredicate(ctx, q.S, q.P, lo, ch)
+			case "TriplesForPredicateAndObject":
+				done <- g.TriplesForPredicateAndObject(ctx, q.P, q.O, lo, ch)
+			default:
+				done <- g.Triples(ctx, lo, ch)
+			}
+		}()
+		for range ch {
+			onElem()
+		}
 	}
+	return <-done
 }
 
 func c07GraphHistories(r *rt.Rec, rng *rand.Rand, n int, yieldSleep bool) {
